@@ -21,7 +21,7 @@ VX(vid)   == Val("x", vid, <<>>)                   \* an exception, identified b
 VC(c)     == Val("c", c, <<>>)
 VIv(f)    == Val("iv", f, <<>>)
 IsX(v)    == v.g = "x"
-IsBaseX(v) == v.g = "x" /\ v.n >= 11000 /\ v.n < 12000      \* derives from BaseException only: `except Exception` lets it pass
+IsBaseX(v) == v.g = "x" /\ v.n >= 500000 /\ v.n < 600000      \* derives from BaseException only: `except Exception` lets it pass
 
 IsContainer(s) == s.g \in {"Tup", "Lst", "Dct"}
 LowerTag(g) == IF g = "Tup" THEN "tup" ELSE IF g = "Lst" THEN "lst" ELSE "dct"
@@ -151,7 +151,7 @@ TaskOut(P, t) ==            \* the value task t returns, or VX(id) of the except
                   [] seg.term.k \in {"return", "result"} ->
                        IF seg.term.k = "return" /\ seg.term.ret # 0 THEN Val("fut", seg.term.ret, <<>>) ELSE Val("r", t, o.rs)
                   [] seg.term.k = "raise" -> VX(10000 + t * 100 + k)
-                  [] seg.term.k = "raiseb" -> VX(11000 + t * 100 + k)
+                  [] seg.term.k = "raiseb" -> VX(500000 + t * 100 + k)
   IN Go(1, <<>>)
 
 (* ---------------- static predicates on programs ---------------------------------------------- *)
